@@ -3,6 +3,7 @@ package regx
 import (
 	"fmt"
 	"math/rand"
+	"sync"
 
 	"github.com/junioryono/godi/v4"
 	"github.com/junioryono/godi/v4/verifh/rt"
@@ -173,6 +174,55 @@ func runReuse(tree []*Node, stats map[string]int64) (fs []finding, nontrivial bo
 	application("second-NewModule-on-same-slice", "top", tree, func(c godi.Collection) error { return c.AddModules(r1) }, rooted)
 	application("second-NewModule-on-same-slice", "top", tree, func(c godi.Collection) error { return c.AddModules(r2) }, rooted)
 	application("same-tree-second-collection", "top", tree, func(c godi.Collection) error { return c.AddModules(top.slice...) }, whole)
+
+	// (d) module values carry no state of an application: the same tree applied to several fresh
+	// collections AT THE SAME TIME gives each of them what a single application gives
+	if ok {
+		ref := godi.NewCollection()
+		refErr := ref.AddModules(top.slice...)
+		refCount, refFeat := ref.Count(), errFeatures(refErr)
+		const goroutines, rounds = 8, 4
+		type outcome struct {
+			count int
+			feat  string
+			msg   string
+			pan   any
+		}
+		for round := 0; round < rounds && len(fs) == 0; round++ {
+			outs := make([]outcome, goroutines)
+			start := make(chan struct{})
+			var wg sync.WaitGroup
+			for g := 0; g < goroutines; g++ {
+				wg.Add(1)
+				go func(g int) {
+					defer wg.Done()
+					defer func() {
+						if p := recover(); p != nil {
+							outs[g].pan = p
+						}
+					}()
+					c := godi.NewCollection()
+					<-start
+					err := c.AddModules(top.slice...)
+					outs[g] = outcome{count: c.Count(), feat: errFeatures(err)}
+					if err != nil {
+						outs[g].msg = err.Error()
+					}
+				}(g)
+			}
+			close(start)
+			wg.Wait()
+			stats["reuse_concurrent_applications"] += goroutines
+			for g, o := range outs {
+				if o.pan != nil || o.count != refCount || o.feat != refFeat {
+					fs = append(fs, finding{"reused-entries-differ", "C20/reused-entries-differ:same-tree-concurrently-on-separate-collections",
+						fmt.Sprintf("the module tree %s was applied to %d fresh collections from %d goroutines at once; a single application registers %d services (error: %q); application %d registered %d (error: %q %s; panic: %v)",
+							treeString(tree), goroutines, goroutines, refCount, refFeat, g, o.count, o.feat, o.msg, o.pan)})
+					break
+				}
+			}
+		}
+	}
 
 	if len(fs) == 0 || fs[0].clause != "caller-slice-modified" {
 		sliceFinding("after-applications")
